@@ -10,6 +10,7 @@ Driver for stream `wire`: one op per line, one observation per line.
   encdag <0|1> <graph tokens…>  -> <hex> size=<n> | err     (stack item with shared compounds; 1 = protected form)
   txo new|dec <hex>|frombytes <hex>|size|hash|copy|bytes|script <hex>|nonce <n>|inv <i> <hex>
                               -> ok | err | <n> | <hex>   (one Transaction OBJECT with its cached size/hash; state of the case)
+  scopes dec <hex of text> | enc <byte>  -> ok <n> | err | <hex of text>   (ScopesFromString / scopesToString)
   nefbytes <hex>              -> ok enc=<hex> v=<tokens> | err            (nef.FileFromBytes)
   jsont enc <item tokens>     -> <hex of the JSON text> | err             (ToJSONWithTypes)
   jsont dec <hex of text>     -> ok <item tokens> | err | panic | unsupported   (FromJSONWithTypes; plain ASCII JSON)
@@ -29,6 +30,7 @@ import NeoModel.Model.Wire.Identity
 import NeoModel.Model.Wire.Obj
 import NeoModel.Model.Wire.ItemJson
 import NeoModel.Model.Wire.ItemJsonU
+import NeoModel.Model.Wire.Scopes
 open NeoModel NeoModel.Wire NeoModel.Wire.Text
 
 def joinToks (t : List String) : String := " ".intercalate t
@@ -339,6 +341,17 @@ def step (s : DrvSt) (ws : List String) : DrvSt × String :=
       match nefFromBytes Sha256.hash2 b with
       | some n => (s, s!"ok enc={Hex.encode ((nefC Sha256.hash2).enc n)} v={joinToks (showNef n)}")
       | none => (s, "err")
+    | none => (s, "bad-op")
+  | ["scopes", "dec", h] =>
+    match Hex.decode h with
+    | some b =>
+      match Scopes.fromString b with
+      | some v => (s, s!"ok {v.toNat}")
+      | none => (s, "err")
+    | none => (s, "bad-op")
+  | ["scopes", "enc", n] =>
+    match n.toNat? with
+    | some v => (s, Hex.encode (Scopes.toString (UInt8.ofNat v)))
     | none => (s, "bad-op")
   | "txo" :: rest => txoStep s rest
   | "exto" :: rest => extoStep s rest
